@@ -25,7 +25,11 @@ HalfM1(bits) == IF bits = 32 THEN 2147483647 ELSE 2 ^ (bits - 1) - 1
 SIntF(m, idx, bits) == CASE m = "min" -> -HalfM1(bits) - 1 [] m = "max" -> HalfM1(bits)
                          [] OTHER -> IF idx % 2 = 0 THEN (idx * 29 + 3) % HalfM1(bits) ELSE -((idx * 31 + 5) % HalfM1(bits))
 BytesF(m, idx, n) == [i \in 1..n |-> CASE m = "min" -> 0 [] m = "max" -> 255 [] OTHER -> (idx * 7 + i * 3) % 256]
-TextF(m, idx, n) == IF m = "min" THEN <<>> ELSE [i \in 1..n |-> IF m = "max" THEN 122 ELSE 97 + ((idx + i) % 26)]
+\* text fields: "max" uses two-byte UTF-8 characters (é = C3 A9; a trailing z when n is odd), so that a
+\* length counted in characters differs from the length in bytes
+TextF(m, idx, n) == IF m = "min" THEN <<>>
+                    ELSE IF m = "max" THEN [i \in 1..n |-> IF i = n /\ n % 2 = 1 THEN 122 ELSE IF i % 2 = 1 THEN 195 ELSE 169]
+                    ELSE [i \in 1..n |-> 97 + ((idx + i) % 26)]
 BoolF(m, idx) == m = "max" \/ (m = "distinct" /\ idx % 2 = 1)
 CCF(m, idx) == CASE m = "min" -> <<0, 0, 0, 0>> [] m = "max" -> <<255, 255, 255, 255>> [] OTHER -> <<97 + (idx % 26), 98, 99, 48 + (idx % 10)>>
 FlagsF(m, idx) == IntF(m, idx, 24)
